@@ -46,6 +46,8 @@ def run(an: Analysis, rep):
     rep.run(r07a, an, rep, enc)
     rep.run(r07b, an, rep, defs)
     rep.run(r07r, an, rep)
+    from .common import old_interpreter_rule
+    rep.run(old_interpreter_rule, an, rep, "R07.V", ["to_json", "from_json"])
     rep.run(r075, an, rep, enc, cdec)
     rep.run(r076, an, rep, enc, defs)
     rep.run(r077, an, rep, enc)
